@@ -604,6 +604,58 @@ def run(ctx: fw.Ctx):
     c10_registry.run(ctx)
     observe(ctx, program_stream(ctx), correspond=True)
     target_through_identifier(ctx)
+    resolution_after_edits(ctx)
+
+
+def resolution_after_edits(ctx: fw.Ctx):
+    """One live document: resolve, edit a let layer / the set through set_value / remove_value, resolve again.
+    After every step every reference must resolve to what a FRESH parse of the current text resolves it
+    to (no lookup may depend on positions or chains remembered from before the edit)."""
+    from nix_manipulator import parse
+    from nix_manipulator.cli import manipulations as M
+
+    def resolved(src, keys):
+        out = {}
+        for k in keys:
+            try:
+                v = src[k]
+                v = v.value if type(v).__name__ == "Identifier" else v
+                out[k] = v.rebuild() if hasattr(v, "rebuild") else repr(v)
+            except Exception as exc:  # noqa: BLE001
+                out[k] = "raises:" + ("ResolutionError" if "Resolution" in type(exc).__name__ else type(exc).__name__)
+        return out
+
+    docs_ = [
+        ("let\n  unused = 0;\n  rev = \"abc\";\n  version = \"1.0\";\nin\n{\n  v = version;\n  r = rev;\n}\n",
+         [("rm", "@unused"), ("set", "@extra", "1"), ("rm", "@rev"), ("set", "@rev", '"zzz"')], ["v", "r"]),
+        ("let\n  meta.tag = 0;\n  rev = \"abc\";\n  version = \"1.0\";\nin\n{\n  v = version;\n  r = rev;\n}\n",
+         [("rm", "@meta.tag"), ("set", "@a.b", "1"), ("rm", "@a.b")], ["v", "r"]),
+        ("let\n  a = 1;\nin\nlet\n  b = 2;\n  c = a;\n  d = b;\nin\n{\n  x = c;\n  y = d;\n  z = a;\n}\n",
+         [("rm", "@b"), ("set", "@b", "7"), ("rm", "@@a"), ("set", "@a", "9"), ("rm", "@c")], ["x", "y", "z"]),
+        ("let\n  u = 0;\n  v = 1;\nin\nrec {\n  p = 5;\n  q = v;\n  r = p;\n  s = u;\n}\n",
+         [("rm", "p"), ("set", "p", "6"), ("rm", "@u"), ("set", "aa", "1"), ("rm", "@v")], ["q", "r", "s"]),
+    ]
+    for text, ops, keys in docs_:
+        for first_lookup in (True, False):
+            src = parse(text)
+            if first_lookup:
+                resolved(src, keys)
+            cur = text
+            for i, op in enumerate(ops):
+                try:
+                    cur = M.set_value(src, op[1], op[2]) if op[0] == "set" else M.remove_value(src, op[1])
+                except Exception:  # noqa: BLE001
+                    continue
+                live = resolved(src, keys)
+                fresh = resolved(parse(cur), keys)
+                ctx.case({"doc": text, "ops": [list(o) for o in ops[: i + 1]], "live-vs-fresh": True}, True)
+                if live != fresh:
+                    ctx.fail({"clause": "stale-after-edit", "op": op[0], "scoped": op[1].startswith("@")},
+                             {"doc": text, "ops": [list(o) for o in ops[: i + 1]], "text_now": cur, "live": live, "fresh": fresh,
+                              "looked_up_before": first_lookup},
+                             f"after {ops[: i + 1]!r} on {text!r} the live document resolves {live!r}, a fresh parse of "
+                             f"its text {cur!r} resolves {fresh!r}")
+                    break
 
 
 def target_through_identifier(ctx: fw.Ctx):
